@@ -1857,9 +1857,11 @@ class KSimulate:
             elif k == "reset":
                 qc.reset(it[1])
             elif k == "cond":
-                g = XGate().to_mutable()
-                g.condition = (qc.clbits[it[2]], 1)
-                qc.append(g, [it[1]])
+                # it = ["cond", qubit, clbit, what, value, measured clbit]: a conditioned gate / measure / reset
+                what = it[3] if len(it) > 3 else "x"
+                g = {"x": XGate, "h": HGate, "measure": Measure, "reset": Reset}[what]().to_mutable()
+                g.condition = (qc.clbits[it[2]], it[4] if len(it) > 4 else 1)
+                qc.append(g, [it[1]], [qc.clbits[it[5]]] if what == "measure" else [])
             elif k == "clop":
                 qc.append(Instruction("clop", 1, 1, []), [it[1]], [it[2]])
         return qc
@@ -1867,6 +1869,9 @@ class KSimulate:
     def run(self, desc):
         qc = self.build(desc)
         a = dict(insts=[[bool(i.operation.condition_bits), i.operation.name in ("measure", "reset"), len(i.clbits)] for i in qc.data])
+        if desc.get("sampler"):
+            from qiskit_addon_cutting.utils.simulation import ExactSampler
+            return a, observe(lambda circ: ExactSampler().run([circ]).result(), [qc])
         return a, observe(simulate_statevector_outcomes, [qc])
 
     def emit(self, a, impl):
@@ -1882,18 +1887,25 @@ class KSimulate:
         return out
 
     def gen(self, rng, q):
-        for _ in range(q(40)):
-            cls = pick(rng, ["valid", "conditioned", "classical_bit_on_gate"])
+        for _ in range(q(60)):
+            cls = pick(rng, ["valid", "conditioned", "conditioned", "conditioned", "classical_bit_on_gate"])
             nq, nc = int(rng.integers(1, 4)), int(rng.integers(1, 3))
             items = []
             for _k in range(int(rng.integers(1, 6))):
                 a = int(rng.integers(0, nq))
                 items.append(pick(rng, [["g1", "h", a], ["g1", "x", a], ["measure", a, int(rng.integers(0, nc))], ["reset", a]] +
                                   ([["cx", a, (a + 1) % nq]] if nq > 1 else [])))
-            if cls != "valid":
-                it = ["cond" if cls == "conditioned" else "clop", int(rng.integers(0, nq)), int(rng.integers(0, nc))]
+            if cls == "conditioned":
+                # a conditioned gate, measure or reset at any position (first, last, after the bit was measured or not)
+                it = ["cond", int(rng.integers(0, nq)), int(rng.integers(0, nc)), pick(rng, ["x", "h", "measure", "measure", "reset", "reset"]),
+                      int(rng.integers(0, 2)), int(rng.integers(0, nc))]
                 items, _ = insert_random(rng, items, it)
-            yield cls, dict(nq=nq, nc=nc, items=items)
+            elif cls != "valid":
+                items, _ = insert_random(rng, items, ["clop", int(rng.integers(0, nq)), int(rng.integers(0, nc))])
+            sampler = bool(rng.integers(0, 2))
+            if sampler and not any(it[0] == "measure" for it in items):
+                items.append(["measure", int(rng.integers(0, nq)), int(rng.integers(0, nc))])   # BaseSamplerV1 insists on one
+            yield cls, dict(nq=nq, nc=nc, items=items, sampler=sampler)
 
 
 def letters_of(label):
